@@ -139,7 +139,20 @@ def _gen_digest(rnd, tier: str) -> Dict[str, Any]:  # noqa: ANN001
 
 
 def fixed_cases(tier: str):
-    return [{"kind": "enum", "n": n} for n in ((1, 2, 3) if tier == "quick" else (1, 2, 3, 4))]
+    out = [{"kind": "enum", "n": n} for n in ((1, 2, 3) if tier == "quick" else (1, 2, 3, 4))]
+    if tier == "thorough":
+        out.append({"kind": "repo_tests", "file": "test_symbol_table.py"})
+    return out
+
+
+STABLE_SYMBOL_TESTS = ["test_add_symbols_multi_processing", "test_add_symbols_single_process", "test_clone_symbol_table", "test_combine_symbol_tables",
+                       "test_create_from_symbol_id_map", "test_get_sym_table_series", "test_get_symbol_ids", "test_get_symbol_names",
+                       "test_query_symbols_multi_processes", "test_save_to_load_from_file", "test_symbol_pattern_match"]
+
+
+def run_repo_tests(case, ctx, res) -> None:  # noqa: ANN001
+    from hv.mon import repotests
+    repotests.run(case["file"], res, ctx, STABLE_SYMBOL_TESTS)
 
 
 # ------------------------------------------------------------------ (a) histories
@@ -390,5 +403,5 @@ def run_digest(case, ctx, res) -> None:  # noqa: ANN001
 def run_case(case: Dict[str, Any], ctx: Any) -> core.CaseResult:
     res = core.CaseResult()
     res.key = core.digest(case)
-    {"history": run_history, "enum": run_enum, "load": run_load, "digest": run_digest}[case["kind"]](case, ctx, res)
+    {"history": run_history, "enum": run_enum, "load": run_load, "digest": run_digest, "repo_tests": run_repo_tests}[case["kind"]](case, ctx, res)
     return res
